@@ -22,12 +22,22 @@ def parseTok (t : String) : Option Ev := do
     | "gf", [a, b] => pure (.gfeed a b)
     | "gh", [a, b] => pure (.ghandled a b)
     | "gx", [a, b] => pure (.gabandoned a b)
+    | "qe", [n] => pure (.quiesceRet n)
+    | "qh", [] => pure .quiesceHung
+    | "qn", [] => pure .note
+    | "qb", [] => pure .note
+    | "qw", [] => pure .note
+    | "qa", [] => pure .note
     | _, _ => none
   | [] => none
 
 def opShapeOk : List String → Bool
   | "stop" :: fs => fs.length == 11 && fs.all (fun f => f.toNat?.isSome)
   | "longkey" :: fs => fs.length == 2 && fs.all (fun f => f.toNat?.isSome) && (fs.head?.bind String.toNat?).any (· ≤ 64)
+  | "quiesce" :: fs =>
+    match fs.mapM String.toNat? with
+    | some [d, _] => 1 ≤ d && d ≤ 200
+    | _ => false
   | "gwstop" :: fs =>
     match fs.mapM String.toNat? with
     | some [w, b, bud, _] => 1 ≤ w && w ≤ 4 && b ≤ 6 && 1 ≤ bud && bud ≤ 1000
